@@ -263,16 +263,20 @@ pub fn sites(tier: Tier) -> Vec<Site> {
     {
         // every Unicode scalar value (not only the characters of the ten pages) next to carets, escaped carets and colour
         // codes: the string-to-string laws hold for every string, so no character may play a part of its own in them
-        let n = 0x11_0000u64 * 4;
+        let n = 0x11_0000u64 * 7;
         Site::new("any-scalar-value", n,
-            "every Unicode scalar value c (all 1 112 064) in the contexts c^^, ^^c^1, a^2c^^_^^, ^c: escape / unescape inverse, no raw reserved character, strip = reference (on the text and on its escaped form) and idempotent",
+            "every Unicode scalar value c (all 1 112 064) in the contexts c^^, ^^c^1, a^2c^^_^^, ^c, c1?, |c7, ^c9: escape / unescape inverse, no raw reserved character, strip = reference (on the text and on its escaped form) and idempotent",
             move |i, acc| {
-                let Some(c) = char::from_u32((i / 4) as u32) else { return };
-                let s = match i % 4 {
+                let Some(c) = char::from_u32((i / 7) as u32) else { return };
+                let s = match i % 7 {
                     0 => format!("{c}^^"),
                     1 => format!("^^{c}^1"),
                     2 => format!("a^2{c} ^_^"),
-                    _ => format!("^{c}"),
+                    3 => format!("^{c}"),
+                    // (... in front of a digit, with something to escape elsewhere in the text)
+                    4 => format!("{c}1?"),
+                    5 => format!("|{c}7"),
+                    _ => format!("^{c}9"),
                 };
                 check_pure(&s, i, "any-scalar-value", acc);
             })
